@@ -4,5 +4,6 @@ CONSTANTS
   M = 7
   Script <- ScriptB
   SlotOf <- Slots7
+  ParentNotEmpty = FALSE
   EarlyUnlock = TRUE
 INVARIANT Quiescent
